@@ -487,6 +487,12 @@ def checkStore (cfg : Cfg) (lines : List String) : CaseResult := Id.run do
       match a.toNat?.bind (s.locs[·]?), keyTok k with
       | some a, some k => pendingGet := some (a, k, s!"GetVariable({showText k})")
       | _, _ => st := st.bad ln
+    | ["getmut", a, k] =>
+      -- like `get`; afterwards the CALLER edits the value it was handed in place (keys set and deleted, elements
+      -- overwritten): the store is not affected, every later read returns the stored value
+      match a.toNat?.bind (s.locs[·]?), keyTok k with
+      | some a, some k => pendingGet := some (a, k, s!"GetVariable({showText k}) [result edited by the caller afterwards]")
+      | _, _ => st := st.bad ln
     | ["cget", c, k] =>
       match c.toNat?.bind (s.clones[·]?), keyTok k with
       | some a, some k => pendingGet := some (a, k, s!"clone[{showText k}]")
